@@ -31,4 +31,5 @@ def run(chk):
                         '"mutually consistent" = the C03 and C04 clauses evaluated on the edited real tree + the model\'s counts / text view']
 
 
-replay = c05.replay
+def replay(chk, path):
+    return c05.replay(chk, path, 'C15')
